@@ -2,7 +2,6 @@ package api
 
 import (
 	"fmt"
-	"math"
 	"math/rand"
 	"time"
 )
@@ -48,27 +47,28 @@ func withRegularDistribution(iterationDuration time.Duration, rateFn RateFunctio
 	}
 
 	rate := 0
-	accRate := 0.0
+	accRate := 0
 	remainingSteps := 0
 	tickSteps := int(iterationDuration.Milliseconds() / distributedIterationDuration.Milliseconds())
 
 	distributedRateFn := func(time time.Time) int {
 		if remainingSteps == 0 {
 			rate = rateFn(time)
-			accRate = 0.0
+			accRate = 0
 			remainingSteps = tickSteps
 		}
 
-		accRate += float64(rate) / float64(tickSteps)
-		accRate = math.Ceil(accRate*10_000_000) / 10_000_000
+		// accRate counts iterations in units of 1/tickSteps, so that the
+		// whole rate is emitted after exactly tickSteps steps
+		accRate += rate
 		remainingSteps--
 
-		if accRate < 1 {
+		if accRate < tickSteps {
 			return 0
 		}
 
-		roundedAccRate := int(accRate)
-		accRate -= float64(roundedAccRate)
+		roundedAccRate := accRate / tickSteps
+		accRate -= roundedAccRate * tickSteps
 
 		return roundedAccRate
 	}
